@@ -6,6 +6,7 @@ From Coq.Strings Require Import Byte.
 From GM Require Import Codec.Packet Session.Ids Session.Store.
 Extraction Language OCaml.
 Separate Extraction
+  Datatypes.length
   Byte.to_N Byte.of_N N.of_nat N.to_nat
   Packet.packet_eqb Packet.get_id Packet.type_code Packet.type_of_code Packet.ptype_of
   Ids.next_id Ids.nth_id Ids.take_ids
